@@ -16,6 +16,7 @@ NOT provable here: stack exhaustion, allocator failure, the internals of `core`/
 -/
 import TzVerif.Generated.Sites
 import TzVerif.Proofs.NoPanic
+import TzVerif.Proofs.SrcEqZone
 
 namespace TzVerif.C07
 open TzVerif.Model TzVerif.Gen TzVerif.Proofs
@@ -118,5 +119,18 @@ theorem tz_rule_time_arithmetic_fits (c : Bytes) (ext : Bool) (v : Int) (rest : 
     (h : (if ext then parseRuleTimeExtended c else parseRuleTime c) = .ok (v, rest)) :
     -604799 ≤ v ∧ v ≤ 604799 :=
   tz_rule_time_arith_fits c ext v rest h
+
+/-! ### The cast sites of the translated source
+In `TzVerif.Src` (the source translated on every run, DESIGN §13) every `as T` is a two's-complement wrap
+(`Src.wrap_T`). The model has no wraps; the equalities below therefore say that in these functions no cast
+loses information, for all arguments (resp. for arguments of the Rust types where stated). -/
+theorem casts_in_the_translated_source_are_lossless :
+    (∀ t ns, Src.UtcDateTime.from_timespec t ns = UtcDateTime.fromTimespec t ns) ∧
+    (∀ y m d, Src.week_day y m d = weekDay y m d) ∧
+    (∀ y m d, 1 ≤ m ∧ m ≤ 12 → 1 ≤ d ∧ d ≤ 255 → Src.year_day y m d = yearDay y m d) ∧
+    (∀ n, Src.total_nanoseconds_to_timespec n = totalNanosecondsToTimespec n) ∧
+    (∀ v, Src.try_into_i32 v = tryIntoI32 v) ∧ (∀ v, Src.try_into_i64 v = tryIntoI64 v) :=
+  ⟨Proofs.SrcEq.utc_from_timespec_eq, Proofs.SrcEq.week_day_eq, fun y m d hm hd => Proofs.SrcEq.year_day_eq y m d hm hd,
+   Proofs.SrcEq.total_nanoseconds_to_timespec_eq, Proofs.SrcEq.try_into_i32_eq, Proofs.SrcEq.try_into_i64_eq⟩
 
 end TzVerif.C07
